@@ -144,7 +144,7 @@ def PInv (a : PullAcc) : Prop :=
   (∀ x, x ∈ a.acts → GoodW x) ∧ ((∃ t m, Act.write t m ∈ a.acts) → a.modified = true)
 
 theorem PInv.snoc {a : PullAcc} (h : PInv a) (dst : Site) (t m : List Cell) (htm : ∀ c, c ∈ t → c ∈ m) :
-    PInv { dst := dst, acts := a.acts ++ [.write t m], modified := true } := by
+    PInv { dst := dst, acts := a.acts ++ [.write t m], modified := true, orig := a.orig } := by
   refine ⟨?_, fun _ => rfl⟩
   intro x hx
   rcases List.mem_append.mp hx with h' | h'
@@ -184,7 +184,7 @@ theorem pullRows_inv (src : Site) (c : Cell) (a : PullAcc) (h : PInv a) : PInv (
   · apply h.snoc
     intro x hx
     obtain ⟨r, hr, rfl⟩ := List.mem_map.mp hx
-    refine List.mem_flatMap.mpr ⟨r, hr, ?_⟩
+    refine List.mem_flatMap.mpr ⟨r, (List.mem_filter.mp hr).1, ?_⟩
     split
     · split <;> simp
     · simp
@@ -207,17 +207,65 @@ theorem pullStart_inv (dst : Site) (r : Room) (rd : RoomDef) : PInv (pullStart d
     · intro x hx; cases hx
     · rintro ⟨t, m, hx⟩; cases hx
 
+theorem restrictTouched_good (cells : List Cell) (l : List Act) (h : ∀ x, x ∈ l → GoodW x) :
+    (∀ x, x ∈ restrictTouched cells l → GoodW x) ∧
+    ((∃ t m, Act.write t m ∈ restrictTouched cells l) → ∃ t m, Act.write t m ∈ l) := by
+  induction l with
+  | nil =>
+    refine ⟨?_, ?_⟩
+    · intro x hx; cases hx
+    · rintro ⟨t, m, hx⟩; cases hx
+  | cons a rest ih =>
+    obtain ⟨i1, i2⟩ := ih (fun x hx => h x (List.mem_cons_of_mem _ hx))
+    have ha := h a List.mem_cons_self
+    cases a with
+    | write t m =>
+      simp only [restrictTouched]
+      refine ⟨?_, fun _ => ⟨t, m, List.mem_cons_self⟩⟩
+      intro x hx
+      rcases List.mem_cons.mp hx with h' | h'
+      · subst h'
+        intro c hc
+        exact ha c (List.mem_filter.mp hc).1
+      · exact i1 x h'
+    | roomEv d =>
+      simp only [restrictTouched]
+      refine ⟨?_, ?_⟩
+      · intro x hx
+        rcases List.mem_cons.mp hx with h' | h'
+        · subst h'; trivial
+        · exact i1 x h'
+      · rintro ⟨t, m, hx⟩
+        rcases List.mem_cons.mp hx with h' | h'
+        · cases h'
+        · obtain ⟨t', m', h''⟩ := i2 ⟨t, m, h'⟩
+          exact ⟨t', m', List.mem_cons_of_mem _ h''⟩
+    | pass => exact absurd rfl ha.ne_pass
+    | mark => exact absurd rfl ha.ne_mark
+
+theorem pullFinish_good (a : PullAcc) (h : PInv a) : ∀ x, x ∈ (pullFinish a).2 → GoodW x ∨ x = Act.pass := by
+  intro x hx
+  unfold pullFinish at hx
+  dsimp only at hx
+  split at hx
+  · rcases List.mem_append.mp hx with h' | h'
+    · exact Or.inl ((restrictTouched_good _ _ h.1).1 x h')
+    · exact Or.inr (List.mem_singleton.mp h')
+  · exact Or.inl ((restrictTouched_good _ _ h.1).1 x hx)
+
 theorem pullFinish_WR (a : PullAcc) (h : PInv a) : WR (pullFinish a).2 := by
   unfold pullFinish
   dsimp only
   split
-  · exact WR_good_passes _ 1 (by decide) h.1
+  · exact WR_good_passes _ 1 (by decide) (restrictTouched_good _ _ h.1).1
   · rename_i hm
     apply WR_roomEvs
     intro x hx
-    have hg := h.1 x hx
+    have hg := (restrictTouched_good _ _ h.1).1 x hx
     cases x with
-    | write t m => exact absurd (h.2 ⟨t, m, hx⟩) hm
+    | write t m =>
+      obtain ⟨t', m', h'⟩ := (restrictTouched_good _ _ h.1).2 ⟨t, m, hx⟩
+      exact absurd (h.2 ⟨t', m', h'⟩) hm
     | roomEv d => exact ⟨d, rfl⟩
     | pass => exact absurd rfl hg.ne_pass
     | mark => exact absurd rfl hg.ne_mark
@@ -294,15 +342,7 @@ theorem pullOp_good (src dst : Site) (r : Room) (x : Site × List Act) (h : pull
   · rename_i rd _
     simp only [Option.some.injEq] at h
     subst h
-    have hi := foldl_pullEntry_inv src (roomLog r src.log) _ (pullStart_inv dst r rd)
-    intro a ha
-    unfold pullFinish at ha
-    dsimp only at ha
-    split at ha
-    · rcases List.mem_append.mp ha with h' | h'
-      · exact Or.inl (hi.1 a h')
-      · exact Or.inr (List.mem_singleton.mp h')
-    · exact Or.inl (hi.1 a ha)
+    exact pullFinish_good _ (foldl_pullEntry_inv src (roomLog r src.log) _ (pullStart_inv dst r rd))
 
 theorem mixPull_good (st : State) (si : Nat) (s : Site) (pull : Option (Nat × Room)) :
     ∀ a, a ∈ ((mixPull st si s pull).getD (s, [])).2 → GoodW a ∨ a = Act.pass := by
